@@ -1110,7 +1110,7 @@ fn c16_c17(r: &mut R, prop: &str) {
     if prop == "C17" {
         for seed in [vec![], b"a".to_vec(), r.h.rng.bytes(1024)] {
             let mut longest: Vec<Vec<u8>> = vec![];
-            for size in if quick { vec![0usize, 1, 2, 13, 40] } else { vec![0, 1, 2, 50, 400, 2000] } {
+            for size in if quick { if seed.len() == 1 { vec![0usize, 1, 2, 13, 40, 1030] } else { vec![0usize, 1, 2, 13, 40] } } else { vec![0, 1, 2, 50, 400, 2100] } {
                 let sd = seed.clone();
                 let mut got = vec![];
                 r.case("gens", vec![nu(size as u64), b(&seed)], || {
@@ -1171,6 +1171,19 @@ fn c16_c17(r: &mut R, prop: &str) {
             Ok(us) => Out::Ok(vxs(&us)),
             Err(_) => Out::Err,
         });
+        if nn == 1 {
+            for big_n in [1025usize, 2050] {
+                r.case("us", vec![vcts(&es), vcts(&eps), ves(cs), nu(big_n as u64), b(&label)], || match sv::shuffle_us(&sh, &es, &eps, cs, big_n, &label) {
+                    Ok(us) => Out::Ok(vxs(&us)),
+                    Err(_) => Out::Err,
+                });
+            }
+            let us: Vec<BigUint> = sv::shuffle_us(&sh, &es, &eps, cs, 2050, &label).unwrap().iter().map(xn).collect();
+            let mut d = us.clone();
+            d.sort();
+            d.dedup();
+            r.h.check(d.len() == us.len(), || "the 2050 per-ciphertext challenges are not pairwise distinct on R255".to_string());
+        }
         let tval = match vproof(&pf) {
             Val::List(x) => x[0].clone(),
             _ => unreachable!(),
@@ -1219,6 +1232,105 @@ fn c18(r: &mut R) {
     }
 }
 
+/// C19: deterministic outputs under whatever build this is (sequential / rayon), inputs made with
+/// the build's own randomness (tapes do not reach rayon's worker threads)
+fn c19(r: &mut R) {
+    let ctx = r.ctx.clone();
+    let quick = r.h.tier == Tier::Quick;
+    for nn in if quick { vec![1usize, 6, 40] } else { vec![1, 2, 17, 120, 400] } {
+        let seed = r.h.rng.bytes(3);
+        let sd = seed.clone();
+        r.case("gens", vec![nu(nn as u64 + 1), b(&seed)], || Out::Ok(ves(&ctx.generators(nn + 1, &sd))));
+        let s = setup(r, nn, &seed);
+        let sh = Shuffler::new(&s.pk, &s.gens, &ctx);
+        let es: Vec<Ciphertext<C>> = (0..nn).map(|_| s.pk.encrypt(&ctx.rnd())).collect();
+        let label = r.label(nn);
+        let (eps, rs, perm) = sh.gen_shuffle(&es);
+        let Ok(pf) = sh.gen_proof(&es, &eps, &rs, &perm, &label) else {
+            r.h.check(false, || "gen_proof failed on R255".to_string());
+            continue;
+        };
+        let esb = StrandVectorC(es.clone()).strand_serialize().unwrap();
+        let e2 = esb.clone();
+        r.case("ser_svec_c", vec![vcts(&es)], || Out::Ok(b(&e2)));
+        let e3 = esb.clone();
+        r.case("des_svec_c", vec![b(&esb)], || match StrandVectorC::<C>::strand_deserialize(&e3) {
+            Ok(x) => Out::Ok(vcts(&x.0)),
+            Err(_) => Out::Err,
+        });
+        let rsb = StrandVectorX::<C>(rs.clone()).strand_serialize().unwrap();
+        let r2 = rsb.clone();
+        r.case("ser_svec_x", vec![vxs(&rs)], || Out::Ok(b(&r2)));
+        let (t, _, _, _, cs, ch) = sv::proof_parts(&pf);
+        r.case("us", vec![vcts(&es), vcts(&eps), ves(cs), nu(nn as u64), b(&label)], || match sv::shuffle_us(&sh, &es, &eps, cs, nn, &label) {
+            Ok(us) => Out::Ok(vxs(&us)),
+            Err(_) => Out::Err,
+        });
+        let tval = match vproof(&pf) {
+            Val::List(x) => x[0].clone(),
+            _ => unreachable!(),
+        };
+        r.case("chal", vec![vcts(&es), vcts(&eps), ves(cs), ves(ch), ve(vh::pk_element(&s.pk)), tval, b(&label)], || match sv::shuffle_challenge(&sh, &es, &eps, cs, ch, t, &label) {
+            Ok(x) => Out::Ok(vx(&x)),
+            Err(_) => Out::Err,
+        });
+        let mut ok = false;
+        r.case("check_proof", vec![ves(&s.gens), ve(vh::pk_element(&s.pk)), vproof(&pf), vcts(&es), vcts(&eps), b(&label)], || match sh.check_proof(&pf, &es, &eps, &label) {
+            Ok(x) => {
+                ok = x;
+                Out::Ok(Val::Bool(x))
+            }
+            Err(_) => Out::Err,
+        });
+        r.h.check(ok, || format!("honest proof rejected on R255 N={}", nn));
+        let one = X::mul_identity();
+        let p2 = rebuild(&pf, |_, _, _, sp, _, _| sp[nn / 2] = sp[nn / 2].add(&one));
+        let mut acc = true;
+        r.case("check_proof", vec![ves(&s.gens), ve(vh::pk_element(&s.pk)), vproof(&p2), vcts(&es), vcts(&eps), b(&label)], || match sh.check_proof(&p2, &es, &eps, &label) {
+            Ok(x) => {
+                acc = x;
+                Out::Ok(Val::Bool(x))
+            }
+            Err(_) => Out::Err,
+        });
+        r.h.check(!acc, || "mutated proof accepted on R255".to_string());
+        // joint decryption of lists with two trustees
+        let sks = [x_of(&r.rx()), x_of(&r.rx())];
+        let kms: Vec<KeymakerV<C>> = sks.iter().map(|x| KeymakerV::from_sk(PrivateKey::from(x, &ctx), &ctx)).collect();
+        let pks: Vec<E> = sks.iter().map(|x| ctx.gmod_pow(x)).collect();
+        let joint = KeymakerV::combine_pks(&ctx, pks.iter().map(|e| PublicKey::from_element(e, &ctx)).collect());
+        let ms: Vec<E> = (0..nn).map(|_| ctx.rnd()).collect();
+        let cts: Vec<Ciphertext<C>> = ms.iter().map(|m| joint.encrypt(m)).collect();
+        let mut factors = vec![];
+        for (i, km) in kms.iter().enumerate() {
+            if let Ok((fs, pfs)) = km.decryption_factor_many(&cts, &label) {
+                let args = vec![ve(&pks[i]), vcts(&cts), ves(&fs), l(pfs.iter().map(vcp).collect()), b(&label)];
+                let mut okb = false;
+                r.case("km_verify_factors", args, || match KeymakerV::verify_decryption_factors(&ctx, &pks[i], &cts, &fs, &pfs, &label) {
+                    Ok(x) => {
+                        okb = x;
+                        Out::Ok(Val::Bool(x))
+                    }
+                    Err(_) => Out::Err,
+                });
+                r.h.check(okb, || "honest batch rejected on R255".to_string());
+                factors.push(fs);
+            }
+        }
+        if factors.len() == 2 {
+            let fv: Vec<Val> = factors.iter().map(|fs| ves(fs)).collect();
+            let mut got = vec![];
+            r.case("km_joint_dec_many", vec![l(fv), vcts(&cts)], || {
+                let x = KeymakerV::joint_dec_many(&ctx, &factors, &cts);
+                let o = ves(&x);
+                got = x;
+                Out::Ok(o)
+            });
+            r.h.check(got == ms, || format!("joint decryption of a list of {} fails on R255", nn));
+        }
+    }
+}
+
 pub fn run(h: &mut Harness) {
     let prop = h.prop.clone();
     h.comment("context R255");
@@ -1235,6 +1347,7 @@ pub fn run(h: &mut Harness) {
         "C14" => c14(&mut r),
         "C16" | "C17" => c16_c17(&mut r, &prop),
         "C18" => c18(&mut r),
+        "C19" => c19(&mut r),
         _ => {}
     }));
     vh::load_exp_tape(vec![]);
